@@ -381,12 +381,20 @@ func (fv *FV) evalBin(e *Expr, env *Env) Val {
 	switch op {
 	case "&&", "||", "==>", "<==>":
 		a := fv.evalBool(e.Args[0], env)
+		if op == "==>" && strings.Contains(a, unknownTypeID) {
+			// guarded by a type test on a type that does not exist in this package
+			return Val{T: "true", S: "Bool"}
+		}
 		b := fv.evalBool(e.Args[1], env)
 		m := map[string]string{"&&": "and", "||": "or", "==>": "=>", "<==>": "="}
 		return Val{T: fmt.Sprintf("(%s %s %s)", m[op], a, b), S: "Bool"}
 	}
 	a := fv.evalSpec(e.Args[0], env)
 	b := fv.evalSpec(e.Args[1], env)
+	if (op == "==" || op == "!=") && ((a.S == "Nil" && b.Loc != nil && len(b.Loc.path) > 0) || (b.S == "Nil" && a.Loc != nil && len(a.Loc.path) > 0)) {
+		// the address of a field or element is never nil
+		return Val{T: map[string]string{"==": "false", "!=": "true"}[op], S: "Bool"}
+	}
 	a = fv.asTermSpec(env, a)
 	b = fv.asTermSpec(env, b)
 	if op == "==" || op == "!=" {
@@ -583,9 +591,34 @@ func (fv *FV) evalCall(e *Expr, env *Env) Val {
 		return Val{T: x.T, S: "Int", Typ: t}
 	case "typeid":
 		// typeid("*bytes.Buffer")
-		return Val{T: fmt.Sprint(fv.u.typeID(fv.parseTypeName(e.Args[0].Name))), S: "Int"}
+		// a GEN type this corpus package does not contain: an id no value has
+		if t := fv.tryParseTypeName(e.Args[0].Name); t != nil {
+			return Val{T: fmt.Sprint(fv.u.typeID(t)), S: "Int"}
+		}
+		return Val{T: unknownTypeID, S: "Int"}
 	case "isNaN":
-		return Val{T: fmt.Sprintf("(fp.isNaN %s)", arg(0).T), S: "Bool"}
+		if x := arg(0); isFP(x.S) {
+			return Val{T: fmt.Sprintf("(fp.isNaN %s)", x.T), S: "Bool"}
+		}
+		return Val{T: "false", S: "Bool"}
+	case "cntLess":
+		// cntLess(s, n, m): number of j in [0,n) with s[j] < m; the defining one-step unfolding of
+		// every term built here is added as an axiom instance
+		sl, n, m := arg(0), arg(1), arg(2)
+		es := "Int"
+		hs := "(Array Int " + es + ")"
+		arr := fmt.Sprintf("(select %s (sref %s))", fv.heap(env.st, hs), sl.T)
+		off := fmt.Sprintf("(soff %s)", sl.T)
+		t := fmt.Sprintf("(cnt_lt %s %s %s %s)", arr, off, n.T, m.T)
+		ax := fmt.Sprintf("(assert (= %s (ite (<= %s 0) 0 (+ (cnt_lt %s %s (- %s 1) %s) (ite (< (select %s (+ %s (- %s 1))) %s) 1 0)))))", t, n.T, arr, off, n.T, m.T, arr, off, n.T, m.T)
+		ax2 := fmt.Sprintf("(assert (and (<= 0 %s) (or (<= %s 0) (<= %s %s))))", t, n.T, t, n.T)
+		for _, a := range []string{ax, ax2} {
+			if !fv.declS[a] {
+				fv.declS[a] = true
+				fv.decls = append(fv.decls, a)
+			}
+		}
+		return Val{T: t, S: "Int"}
 	case "fpeq":
 		return Val{T: fmt.Sprintf("(fp.eq %s %s)", arg(0).T, arg(1).T), S: "Bool"}
 	case "extract":
@@ -718,4 +751,19 @@ func (fv *FV) evalCall(e *Expr, env *Env) Val {
 // quantifier-free goal over fresh constants (sound for validity checking).
 func (fv *FV) skolemGoal(g string) string {
 	return g // quantified goals are negated by the solver; z3/cvc5 skolemise themselves
+}
+
+const unknownTypeID = "(- 999999)"
+
+func (fv *FV) tryParseTypeName(name string) (t types.Type) {
+	defer func() {
+		if r := recover(); r != nil {
+			if _, ok := r.(specFail); ok {
+				t = nil
+				return
+			}
+			panic(r)
+		}
+	}()
+	return fv.parseTypeName(name)
 }
